@@ -502,7 +502,11 @@ def gen_ranges(ctx):
 
 
 # ------------------------------------------------------------------------------------------------------------------
-def run_bin(binpath, lines, timeout=1500):
+def run_bin(binpath, lines, timeout=None):
+    # the model/spec drivers are pure computations: the limit only guards against a hung process; it scales with the
+    # batch size so that a loaded machine or the thorough tier's large batches do not turn into a spurious alarm
+    if timeout is None:
+        timeout = 1500 + len(lines) // 20
     p = subprocess.run([binpath], input=("\n".join(lines) + "\n").encode(), stdout=subprocess.PIPE,
                        stderr=subprocess.PIPE, timeout=timeout)
     out = p.stdout.decode("ascii", "replace").splitlines()
